@@ -30,7 +30,8 @@ RULE = ("seeded histories (3-14 requests) over a heap of quantities: Measurement
         "(MeasurementArray(arr, error=) and XYDataSet(xdata=arr, ydata=arr, xerr=, yerr=)), the "
         "error / relative_error / value setters on single, repeated and derived quantities, the "
         "use_* selectors, arithmetic with quantity / number / (v, e)-pair operands, unary minus and "
-        "sin / cos / atan, "
+        "sin / cos / atan, powers (negative / zero / positive base to int and float constants, to a "
+        "quantity, constant ** quantity), a rejected relative uncertainty r >= 0 judged directly, "
         "and the Monte Carlo results of calculated quantities (error_method = Monte Carlo with the "
         "mean-and-std strategy, use_mode_with_confidence at valid and invalid confidences — also on "
         "x*x, 1-x*x, -(x*x) with x = 0 +/- s, whose histogram peaks in the first / last bin — and "
@@ -358,6 +359,36 @@ def gen_case(rng, malformed=False, long=False):
                 ops.append(["un", rng.choice(["neg", "neg", "sin", "cos", "atan"]), a])
                 t.push("derived", None, t.src[a] | {a})
                 continue
+            if rng.random() < 0.22 and t.kind[a] != "derived" and t.val[a] is not None:
+                # POWERS ("all formulas"): a measurement with a negative, zero or positive central value
+                # raised to a constant exponent (int or float object) or to another quantity; the
+                # exponent keeps the formula inside its domain (decided here from the harness's own
+                # record of the central values): integer exponents for a base <= 0, exponent >= 1 for
+                # a zero base (the derivative n*x^(n-1) needs 0^(n-1)), anything for a positive base
+                v = t.val[a]
+                if v < 0:
+                    ex = rng.choice([2.0, 2.0, 3.0, 1.0, 4.0, -1.0, -2.0])
+                elif v == 0:
+                    ex = rng.choice([2.0, 2.0, 3.0, 1.0])
+                else:
+                    ex = rng.choice([2.0, 3.0, 0.5, -1.0, 1.0, 0.0, 2.5, -0.5])
+                flags.add("pow:base-" + ("negative" if v < 0 else "zero" if v == 0 else "positive"))
+                cands = [i for i in usable if i != a and t.kind[i] != "derived" and t.val[i] is not None
+                         and 0 < abs(t.val[i]) <= 5 and float(t.val[i]).is_integer()]
+                if v > 0 and cands and rng.random() < 0.3:
+                    b = rng.choice(cands)
+                    flags.add("pow:exponent-quantity")
+                    ops.append(["arith", "pow", ["ref", a], ["ref", b]])
+                    t.push("derived", None, t.src[a] | t.src[b] | {a, b})
+                elif v > 0 and rng.random() < 0.15:
+                    flags.add("pow:constant-base")
+                    ops.append(["arith", "pow", ["num", bits(rng.choice([2.0, 0.5, 10.0]))], ["ref", a]])
+                    t.push("derived", None, t.src[a] | {a})
+                else:
+                    typ = "int" if rng.random() < 0.5 and float(ex).is_integer() else None
+                    ops.append(["arith", "pow", ["ref", a], ["num", bits(ex)] + ([typ] if typ else [])])
+                    t.push("derived", None, t.src[a] | {a})
+                continue
             o = rng.choice(["add", "sub", "mul", "div"])
             k = rng.random()
             if k < 0.5:
@@ -489,13 +520,13 @@ def fmt_spec(s, kw="error"):
 
 def describe(c):
     out = []
-    sym = {"add": "+", "sub": "-", "mul": "*", "div": "/"}
+    sym = {"add": "+", "sub": "-", "mul": "*", "div": "/", "pow": "**"}
 
     def opnd(x):
         if x[0] == "ref":
             return "h[{}]".format(x[1])
         if x[0] == "num":
-            return repr(unbits(x[1]))
+            return repr(int(unbits(x[1])) if "int" in x[2:] else unbits(x[1]))
         return "({!r}, {!r})".format(unbits(x[1]), unbits(x[2]))
     for o in c["ops"]:
         k = o[0]
@@ -592,7 +623,7 @@ def observe(q, c):
     steps = []
     excs = collections.Counter()
     sym = {"add": lambda a, b: a + b, "sub": lambda a, b: a - b, "mul": lambda a, b: a * b,
-           "div": lambda a, b: a / b}
+           "div": lambda a, b: a / b, "pow": lambda a, b: a ** b}
     for o in c["ops"]:
         k = o[0]
         new = []
@@ -601,7 +632,7 @@ def observe(q, c):
             if x[0] == "ref":
                 return objs[x[1]]
             if x[0] == "num":
-                return unbits(x[1])
+                return int(unbits(x[1])) if "int" in x[2:] else unbits(x[1])
             return (unbits(x[1]), unbits(x[2]))
         if k == "meas":
             def f():
@@ -791,6 +822,18 @@ def spec_check(c, o):
                               i, op[0], st["exc"]), "input": inp, "case": c, "step": i,
                           "impl": heap, "expected": prev, "clause": "rejected leaves unchanged"})
             return fails
+        if op[0] == "setrel" and st["out"] != "ok" and op[1] < len(prev) and unbits(op[2]) >= 0 \
+                and not isinstance(prev[op[1]][1], str) and math.isfinite(prev[op[1]][1]):
+            # the clause has two halves: r >= 0 GIVES r*|value| -- a request with r >= 0 (the boundary
+            # r = 0 included: "this result is exact") on a quantity with a finite central value has
+            # nothing to be rejected for
+            fails.append({"signature": "c14:spec:relative-rejected:{}".format(prev[op[1]][0]),
+                          "what": "relative uncertainty {!r} >= 0 on h[{}] (a {} quantity, value {!r}) was "
+                          "rejected ({})".format(unbits(op[2]), op[1], prev[op[1]][0], prev[op[1]][1],
+                                                 st["exc"]), "input": inp, "case": c, "step": i,
+                          "impl": "rejected", "expected": unbits(op[2]) * abs(prev[op[1]][1]),
+                          "clause": "r >= 0 gives r*|value|"})
+            return fails
         if op[0] == "setrel" and st["out"] == "ok":
             r = unbits(op[2])
             kind, v, e = heap[op[1]]
@@ -868,16 +911,22 @@ def run_cases(ctx, cases, ref=False, with_model=True):
         d["stream:" + ("malformed" if c["malformed"] else "valid")] += 1
         d["ops:%s" % ("<=5" if len(c["ops"]) <= 5 else "6-10" if len(c["ops"]) <= 10 else
                       "11-14" if len(c["ops"]) <= 14 else "15-40")] += 1
+        ph = []
         for op, st in zip(c["ops"], o["steps"]):
             tag = op[0]
+            was, ph = ph, st["heap"]
             if op[0] == "un":
                 tag += ":" + op[1]
             if op[0] == "setitem":
                 tag += ":number" if op[3][1] is None else ":pair"
             if op[0] in ("rep", "array", "rewrap"):
                 tag += ":" + (op[2][0] if op[2] else "none")
-            if op[0] in ("seterr", "setrel", "setval", "sel") and op[1] < len(st["heap"]):
-                pass
+            if op[0] == "arith":
+                tag += ":" + op[1]
+            if op[0] == "setrel" and op[1] < len(st["heap"]):
+                r = unbits(op[2])
+                d["setrel:{}:{}:{}".format(was[op[1]][0] if op[1] < len(was) else "?",
+                                           "r<0" if r < 0 else "r=0" if r == 0 else "r>0", st["out"])] += 1
             d["op:{}:{}".format(tag, st["out"])] += 1
         for f in c["flags"]:
             d["flag:" + f] += 1
